@@ -114,7 +114,7 @@ def run_parallel(cmds, nproc=NCPU, timeout=None, env=None):
 
 
 def tlc_cmd(module, cfg, metadir, workers=1, xmx="2500m", extra=()):
-    return ["timeout", "3000", "java", "-XX:+UseParallelGC", "-XX:ParallelGCThreads=2", "-Xss64m", "-Xmx" + xmx,
+    return ["timeout", "9000", "java", "-XX:+UseParallelGC", "-XX:ParallelGCThreads=2", "-Xss64m", "-Xmx" + xmx,
             "-cp", TLA_JAR, "tlc2.TLC", "-noGenerateSpecTE", "-workers", str(workers), "-metadir", metadir,
             "-config", os.path.join(SPEC, cfg), os.path.join(SPEC, module)] + list(extra)
 
